@@ -1,6 +1,7 @@
 package sim
 
 import (
+	"bytes"
 	"encoding/binary"
 	"fmt"
 	"math"
@@ -473,4 +474,21 @@ func StakingScript(h [32]byte, frozen uint64) []byte {
 func BindingScript(holder [32]byte, target []byte) []byte {
 	s, _ := txscript.PayToBindingScriptHashScript(holder[:], target)
 	return s
+}
+
+// SortedOuts returns the outputs of the view ordered by outpoint: every choice "the first n outputs
+// such that ..." made by a generator must not depend on Go's map iteration order, or a case would not
+// replay.
+func (v *View) SortedOuts() []*Out {
+	l := make([]*Out, 0, len(v.Outs))
+	for _, o := range v.Outs {
+		l = append(l, o)
+	}
+	sort.Slice(l, func(a, b int) bool {
+		if c := bytes.Compare(l[a].OP.Hash[:], l[b].OP.Hash[:]); c != 0 {
+			return c < 0
+		}
+		return l[a].OP.Index < l[b].OP.Index
+	})
+	return l
 }
